@@ -83,6 +83,11 @@ def generate(tier, rng):
         e.extra['shape'] = 'popular variant names, derives imported by name'
         e.extra['no_noise'] = True
         enums.append(e)
+    e = ESpec(id='c13wide', name='EnC13wide', derives=['EnumIs', 'EnumTryAs'], feats=['is', 'tryas', 'absent'])
+    e.variants = [VSpec(ident='Wide', kind='tuple', ftypes=['u8'] * 30), VSpec(ident='Narrow', kind='tuple', ftypes=['u8', 'u16']), VSpec(ident='Unit')]
+    e.extra['shape'] = 'tuple variant with 30 fields'
+    e.extra['no_noise'] = True
+    enums.append(e)
     # the model tells the harness which methods exist and what they are called
     lines = []
     for e in enums:
